@@ -321,3 +321,10 @@ func TestVerif_C11(t *testing.T) {
 	}
 	r.Extra("deviation_bound", bound)
 }
+
+// TestVerifRace_C11 runs every scenario body free (gates answer at once, no oracle) under the race detector.
+func TestVerifRace_C11(t *testing.T) {
+	xplore.Free = 3
+	defer func() { xplore.Free = 0 }()
+	TestVerif_C11(t)
+}
